@@ -1,8 +1,14 @@
-"""C06 - the n-gram lookup model computes Katz back-off on any table (bounded part: contracts/C06_rt.py)."""
-from contracts import C06_rt
+"""C06 - the n-gram lookup model computes Katz back-off on any table.
+
+Deductive part (contracts/C06_vc.py, S rung): the real trie descent against the back-off recursion for ALL listed values per
+table structure and history. Bounded part (contracts/C06_rt.py): tables with concrete values, chunking, per-element idx, reload, ARPA."""
+from contracts import C06_rt, C06_vc
+from vf.pyvc import api
 
 CHECKERS = dict(C06_rt.CHECKERS)
 
 
 def run(ctx):
+    api.run_vcs(ctx, C06_vc.vcs(ctx), {"C06.S.descent_is_backoff_recursion": "real _lookup_calc_idx_log_probs source over buffers built by the real _build_trie: next-token log-probabilities = the back-off recursion on the table, for all listed log-probabilities (finite or -inf) and back-off weights"},
+                bounded="table structures: V=2 (3 in the thorough tier), start symbol inside / outside the vocabulary, orders 2-3, every subset of bigrams resp. sampled subsets of higher-order n-grams (missing suffixes included); every history of length 0..N")
     C06_rt.run_bounded(ctx)
